@@ -36,6 +36,10 @@ for _fn in ['arow_get_clone']:
                                     "src/odfdo/element.py:Element.insert,delete,index,clone,_get_element_idx2,elements_repeated_sequence", "src/odfdo/element_cached.py (all)"],
                            stubs=["/verif/shadow/lxml (symdom)"]))
 
+OBLIGATIONS.append(Obl(name="acell_clone", module="h_arow", func="acell_clone", shadow=True, timeout=200, replay="r_h_arow:acell_clone", weight=8,
+                       bounds="real Cell(5, repeated 1..3) with cached position x, y in 0..3 or None (symbolic), cloned, one twin edited; the row holding it cloned",
+                       encodes=["src/odfdo/cell.py:Cell.clone,set_value,repeated", "src/odfdo/row.py:Row.clone,append_cell", "src/odfdo/element.py:Element.clone"], stubs=["/verif/shadow/lxml (symdom)"]))
+
 for _fn, _secs, _b in (("meta_clone", 26, "Meta part: explicit generator 'G'+s (s <= 2 printable ASCII) set or not before cloning, set_generator_default on both twins, title edited on either"),
                        ("content_clone", 15, "Content part with one paragraph; a paragraph appended to either twin")):
     OBLIGATIONS.append(Obl(name=_fn, module="h_partclone", func=_fn, shadow=True, timeout=300, replay="r_h_partclone:" + _fn, weight=_secs, bounds=_b,
